@@ -17,7 +17,7 @@ pub struct C18 {
     pub corpus: std::sync::Arc<crate::corpus::Corpus>,
 }
 
-static PAIRS: crate::engine::PairTable = crate::engine::PairTable::new(&["owned", "borrowed", "sp_new", "sp_curve", "sp_curve_bufs", "sp_borrowed", "sp_duration", "sp_end_time", "sp_push", "sp_pop", "sp_set", "sp_settype", "sp_len", "sp_clear"]);
+static PAIRS: crate::engine::PairTable = crate::engine::PairTable::new(&["owned", "borrowed", "sp_new", "sp_curve", "sp_curve_bufs", "sp_borrowed", "sp_duration", "sp_end_time", "sp_push", "sp_pop", "sp_set", "sp_settype", "sp_len", "sp_clear", "sp_clone", "sp_clone_from"]);
 
 fn mode_of(i: i64) -> GameMode {
     match i.rem_euclid(4) {
@@ -80,7 +80,22 @@ fn gen_list(rng: &mut Rng) -> Vec<f64> {
             (rng.range(-50, 560) as f64, rng.range(-50, 430) as f64)
         }
     };
-    match rng.below(15) {
+    match rng.below(17) {
+        15 => {
+            // degenerate: two or three identical points (with a requested length this is the "no extension" corner)
+            let a = if rng.chance(1, 2) { (0.0, 0.0) } else { c(rng) };
+            let t = *rng.pick(&[2, 2, 1, 0, 3]);
+            if rng.chance(1, 2) {
+                flat(&[(t, a.0, a.1), (-1, a.0, a.1)])
+            } else {
+                flat(&[(t, a.0, a.1), (-1, a.0, a.1), (-1, a.0, a.1)])
+            }
+        }
+        16 => {
+            // plain two-point shapes of every type
+            let a = c(rng);
+            flat(&[(*rng.pick(&[2, 1, 0, 3, -1]), 0.0, 0.0), (-1, a.0, a.1)])
+        }
         12 => {
             // a huge Bezier (> 100 control points): grows every scratch buffer far beyond what later segments need
             let n = 101 + rng.below(80);
@@ -308,7 +323,7 @@ impl Scenario for C18 {
         "exploration"
     }
     fn rule(&self) -> String {
-        "Operation histories over one shared CurveBuffers, a pool of control-point lists (empty, single point, linear, Bezier 2..10 points, perfect curves incl. collinear, Catmull, multi-segment, B-spline with degree, large Bezier that over-grows the buffers, duplicates, randomly typed points) and four slider slots: ops {compute owned, compute borrowed (read or dropped unread), SliderPath::curve / curve_with_bufs / borrowed_curve, HitObjectSlider::duration_with_bufs, HitObject::end_time_with_bufs, push/pop/move/retype a control point through control_points_mut, change the length through expected_dist_mut, clear_curve}. (1) every sequence up to length 3 (quick) / 4 (thorough) over {owned, borrowed} x 6 fixed lists x {no length, 50} — enumerated; (2) seeded histories of length <= 24; (3) decoded-map: bundled / generated maps (with extra sliders of mixed sizes) decoded by the real decoder, whose post-processing shares one CurveBuffers across all sliders and caches each curve — every cached curve, borrowed_curve and BorrowedCurve::new on shared user buffers must equal fresh buffers, before and after the encoder has recomputed them with its own shared buffers. After every computing op: bit-identical to Curve::new on fresh buffers for the current (mode, points, length). distinct_nontrivial = distinct plan hashes with >= 2 operations.".into()
+        "Operation histories over one shared CurveBuffers, a pool of control-point lists (empty, single point, linear, Bezier 2..10 points, perfect curves incl. collinear, Catmull, multi-segment, B-spline with degree, large Bezier that over-grows the buffers, duplicates, randomly typed points) and four slider slots: ops {compute owned, compute borrowed (read or dropped unread), SliderPath::curve / curve_with_bufs / borrowed_curve, HitObjectSlider::duration_with_bufs, HitObject::end_time_with_bufs, push/pop/move/retype a control point through control_points_mut, change the length through expected_dist_mut, clear_curve, clone / clone_from between slots}; a quarter of the operations are followed by a scripted triple (fill the cache, mutate through an accessor, read through a cached API). (1) every sequence up to length 3 (quick) / 4 (thorough) over {owned, borrowed} x 6 fixed lists x {no length, 50} — enumerated; (2) seeded histories of length <= 24; (3) decoded-map: bundled / generated maps (with extra sliders of mixed sizes) decoded by the real decoder, whose post-processing shares one CurveBuffers across all sliders and caches each curve — every cached curve, borrowed_curve and BorrowedCurve::new on shared user buffers must equal fresh buffers, before and after the encoder has recomputed them with its own shared buffers. After every computing op: bit-identical to Curve::new on fresh buffers for the current (mode, points, length). distinct_nontrivial = distinct plan hashes with >= 2 operations.".into()
     }
     fn assumptions(&self) -> Vec<String> {
         vec![
@@ -432,6 +447,22 @@ impl Scenario for C18 {
                 }
             };
             p.ops.push(op);
+            if rng.chance(1, 4) {
+                // scripted triple on one slot: fill the cache, mutate through an accessor, read through a cached API
+                let fill = *rng.pick(&["sp_curve", "sp_curve_bufs", "sp_duration", "sp_end_time"]);
+                let read = *rng.pick(&["sp_curve", "sp_curve_bufs", "sp_borrowed", "sp_duration"]);
+                p.ops.push(Op::new(fill, &[slot]));
+                p.ops.push(match rng.below(4) {
+                    0 => Op::new("sp_len", &[slot, gen_len(&mut rng)]),
+                    1 => Op::new("sp_push", &[slot, -1.0, rng.range(0, 512) as f64, rng.range(0, 384) as f64]),
+                    2 => Op::new("sp_clone_from", &[slot, rng.below(4) as f64]),
+                    _ => Op::new("sp_set", &[slot, rng.below(6) as f64, rng.range(0, 512) as f64, rng.range(0, 384) as f64]),
+                });
+                p.ops.push(Op::new(read, &[slot, 1.0]));
+            }
+            if rng.chance(1, 10) {
+                p.ops.push(Op::new(if rng.chance(1, 2) { "sp_clone" } else { "sp_clone_from" }, &[slot, rng.below(4) as f64]));
+            }
         }
         p
     }
@@ -515,6 +546,49 @@ impl Scenario for C18 {
                     let obj = HitObject { start_time: 1000.0, kind: HitObjectKind::Slider(slider), samples: Vec::new() };
                     let k = op.iarg(0).rem_euclid(4) as usize;
                     slots[k] = Some(Slot { obj, mode, pts: pts.clone(), len });
+                }
+                "sp_clone" | "sp_clone_from" => {
+                    // dst = src.clone()  /  dst.clone_from(&src): afterwards dst must behave exactly like src
+                    let (d, sidx) = (op.iarg(0).rem_euclid(4) as usize, op.iarg(1).rem_euclid(4) as usize);
+                    if d == sidx || slots[sidx].is_none() {
+                        continue;
+                    }
+                    st.inc("ops.clone-slider");
+                    let (src_obj, src_mode, src_pts, src_len) = {
+                        let s0 = slots[sidx].as_ref().unwrap();
+                        (s0.obj.clone(), s0.mode, s0.pts.clone(), s0.len)
+                    };
+                    if op.k == "sp_clone" || slots[d].is_none() {
+                        slots[d] = Some(Slot { obj: src_obj, mode: src_mode, pts: src_pts, len: src_len });
+                    } else {
+                        let dst = slots[d].as_mut().unwrap();
+                        // SliderPath::clone_from itself (a derived Clone on the containing types would not forward to it)
+                        let src_path = match &src_obj.kind {
+                            HitObjectKind::Slider(s) => s.path.clone(),
+                            _ => unreachable!("slot objects are always sliders"),
+                        };
+                        let src_repeat = match &src_obj.kind {
+                            HitObjectKind::Slider(s) => (s.repeat_count, s.velocity),
+                            _ => unreachable!("slot objects are always sliders"),
+                        };
+                        let sl = slider_mut(&mut dst.obj);
+                        sl.path.clone_from(&src_path);
+                        sl.repeat_count = src_repeat.0;
+                        sl.velocity = src_repeat.1;
+                        dst.mode = src_mode;
+                        dst.pts = src_pts;
+                        dst.len = src_len;
+                    }
+                    let dst = slots[d].as_mut().unwrap();
+                    let want = fresh(dst.mode, &dst.pts, dst.len);
+                    let got = {
+                        let c = slider_mut(&mut dst.obj).path.curve();
+                        snap(c.path(), c.lengths())
+                    };
+                    if got != want {
+                        return Err(fail("curve of a cloned slider", &got, &want, dst.pts.len()));
+                    }
+                    prev_kind = "cached";
                 }
                 k @ ("sp_curve" | "sp_curve_bufs" | "sp_borrowed" | "sp_duration" | "sp_end_time" | "sp_push" | "sp_pop" | "sp_set" | "sp_settype" | "sp_len" | "sp_clear") => {
                     let si = op.iarg(0).rem_euclid(4) as usize;
@@ -648,6 +722,7 @@ impl Scenario for C18 {
             "ops.mutate-points",
             "ops.mutate-length",
             "ops.clear-cache",
+            "ops.clone-slider",
             "fired.H1-borrowed-curve-dropped-unread",
             "fired.H2-buffers-overgrown-by-large-list",
             "probe.borrowed-on-empty-list-after-nonempty-computation",
